@@ -225,8 +225,13 @@ def parseSpec (flags w p : String) : Option Fmt.Spec :=
   | _ => none
 
 structure AmtSer (A : Type) where
-  /-- JSON of the amount where the model can compute it (decimal: string of the Display text) -/
+  /-- JSON of the amount where the model can compute it (decimal: string of the Display text;
+  binary64: the number text of `ryu`, computed by `F64.jsonText`) -/
   ser : Option (A → Serde.JL)
+  /-- the JSON TEXT has to read back to the identical amount through `serde_json::from_str` (decimal: yes;
+  binary64: `serde_json`'s own text parser is not exactly rounding, see DESIGN §5, so only the value tree
+  and an exactly rounding reading of the amount text are required) -/
+  textExact : Bool := true
 
 structure AmtText (A : Type) where
   /-- text of `|a|` under an optional precision, where the model can compute it (decimal) -/
@@ -697,15 +702,15 @@ def step (line impl : String) : String × Verdict :=
               -- binary back-end: serde_json's own text parser is not exactly rounding (it may be one ulp off
               -- without its `float_roundtrip` feature), so for JSON TEXT the property asks for an exactly rounding
               -- parser (`aparsed` below); the value tree must round-trip exactly in both back-ends
-              (if AS.ser.isSome then check (tree == "tree=text") "value tree and JSON text differ" else .ok).and <|
+              (if AS.ser.isSome && AS.textExact then check (tree == "tree=text") "value tree and JSON text differ" else .ok).and <|
               (if fin then
-                (check (backTree == want && (AS.ser.isNone || back == want)) "deserialising the serialised value does not give back the identical unit and amount").and <|
+                (check (backTree == want && (AS.ser.isNone || !AS.textExact || back == want)) "deserialising the serialised value does not give back the identical unit and amount").and <|
                 (check ((back.splitOn ",").head? == some (toString i)) "deserialising the JSON text does not give back the unit").and <|
                 (check (aparsed == C.render a) "the serialised amount read back with an exactly rounding parser differs from the stored amount")
                else .skip "non-finite amount").and <|
               check (uback == toString i) "deserialising the serialised unit does not give back the unit"
             ("h" ++ hexOfText expQ ++ " h" ++ hexOfText (Serde.renderLeaf amtJ) ++ " h" ++ hexOfText expU
-              ++ (if AS.ser.isSome then s!" tree=text {want} {want} {i} {C.render a}"
+              ++ (if AS.ser.isSome && AS.textExact then s!" tree=text {want} {want} {i} {C.render a}"
                   else s!" {tree} {back} {want} {i} {C.render a}"), v)
           | _, _, _ => (impl, .skip "unparsed impl output")
         | _ => (impl, if impl.startsWith "panic:" then .skip "panic" else .skip "unparsed impl output")
@@ -1120,8 +1125,8 @@ def runWith {A} (R : Arith A) (C : Codec A) (M : ErrModel) (AT : AmtText A) (AS 
 
 def main (args : List String) : IO UInt32 :=
   match args with
-  | "f64" :: rest => runWith F64.arith f64Codec ErrModel.f64 ⟨some f64AmountText, some F64.text⟩ ⟨none⟩ true rest
-  | "dec" :: rest => runWith Dec.arith decCodec ErrModel.dec ⟨some Fmt.decAbsText, none⟩ ⟨some (fun d => .str (Serde.decText d))⟩ false rest
+  | "f64" :: rest => runWith F64.arith f64Codec ErrModel.f64 ⟨some f64AmountText, some F64.text⟩ ⟨some (fun a => .num (F64.jsonText a)), false⟩ true rest
+  | "dec" :: rest => runWith Dec.arith decCodec ErrModel.dec ⟨some Fmt.decAbsText, none⟩ ⟨some (fun d => .str (Serde.decText d)), true⟩ false rest
   | _ => do
     IO.eprintln "usage: driver <f64|dec> ..."
     return 2
